@@ -400,7 +400,7 @@ func (p *cdProg) get(pd packetDecoder, i int) (c cdCell, err error) {
 	return c, err
 }
 
-func (p *cdProg) decode(pd packetDecoder) (err error) {
+func (p *cdProg) decode(pd packetDecoder) error {
 	rd := pd.(*realDecoder)
 	for i := range p.ops {
 		c, err := p.get(pd, i)
@@ -417,10 +417,13 @@ func (p *cdProg) decode(pd packetDecoder) (err error) {
 	return nil
 }
 
-func cdSafe(fn func() error) (err error) {
+func cdSafe(fn func() error, panicked *bool) (err error) {
 	defer func() {
 		if r := recover(); r != nil {
 			err = fmt.Errorf("panic: %v", r)
+			if panicked != nil {
+				*panicked = true
+			}
 		}
 	}()
 	return fn()
@@ -434,14 +437,14 @@ func cdRunProg(rec *vRec, line string) (encErr bool) {
 	p := newCdProg(c.Ops)
 	var raw []byte
 	eerr := ""
-	if err := cdSafe(func() (e error) { raw, e = encode(p, nil); return }); err != nil {
+	epanic := false
+	if err := cdSafe(func() (e error) { raw, e = encode(p, nil); return }, &epanic); err != nil {
 		eerr = err.Error()
 	}
 	derr := ""
 	dend := 0
 	if eerr == "" {
-		rd := &cdProgDec{p: p}
-		if err := cdSafe(func() error { return decode(raw, rd) }); err != nil {
+		if err := cdSafe(func() error { return decode(raw, p) }, nil); err != nil {
 			derr = err.Error()
 		}
 		if n := len(p.dec); n > 0 {
@@ -466,15 +469,10 @@ func cdRunProg(rec *vRec, line string) (encErr bool) {
 	if p.dec == nil {
 		p.dec = []cdCell{}
 	}
-	rec.Ev("prog", kv{"ops": json.RawMessage(opsRaw), "eerr": eerr, "prep": nz(p.prep), "real": nz(p.real),
+	rec.Ev("prog", kv{"ops": json.RawMessage(opsRaw), "eerr": eerr, "epanic": epanic, "prep": nz(p.prep), "real": nz(p.real),
 		"wr": p.wr, "crc": p.crc, "raw": cdInts(raw), "dec": p.dec, "derr": derr, "dend": dend})
 	return eerr != ""
 }
-
-// cdProgDec gives decode() a `decoder` (the method set of cdProg already has encode).
-type cdProgDec struct{ p *cdProg }
-
-func (d *cdProgDec) decode(pd packetDecoder) error { return d.p.decode(pd) }
 
 func TestVerifCodecProg(t *testing.T) {
 	lines := vReadLines(t, "VERIF_CASES")
